@@ -174,6 +174,9 @@ func cmdRun(args []string) int {
 			for _, f := range res.Funcs {
 				fmt.Println("   fn", f, res.FuncDigests[f])
 			}
+			for _, n := range res.InitNotes {
+				fmt.Println("   initnote", n)
+			}
 			for _, sp := range res.SamplePaths {
 				fmt.Println("   path", sp)
 			}
